@@ -47,6 +47,7 @@ def run(prog, chk):
     chk.rule(strops.check_for, prog, chk, "C15")  # A14.str-ops: where a `$name` ends is a reviewed inventory of searches and character classes
     from props import C18
     chk.rule(C18.template_source, prog, chk)  # a <reuse> copies the element as written: what $k means inside the copy is decided at the reuse site, not at the definition
+    chk.rule(_C16.loop_variable_names_verbatim, prog, chk)  # a loop assigns the variables its author named and no others (no defaulted `<var>_idx`)
 
 
 def own_attributes_before_content(prog, chk):
